@@ -86,13 +86,13 @@ pub struct SonicKZG10;
 impl SonicKZG10 {
 //@stub from=sonic.rs id=sonic_pc.accumulate_elems
 //@stub from=sonic.rs id=sonic_pc.check_elems
-//@fn id=sonic_pc.batch_check file=poly-commit/src/sonic_pc/mod.rs scope="impl<E, P> PolynomialCommitment<E::ScalarField, P> for SonicKZG10<E, P>" name=batch_check props=C05,C10,C11
+//@fn id=sonic_pc.batch_check file=poly-commit/src/sonic_pc/mod.rs scope="impl<E, P> PolynomialCommitment<E::ScalarField, P> for SonicKZG10<E, P>" name=batch_check props=C05,C10,C11,C17
     #[verifier::loop_isolation(false)]
     fn batch_check<'a>(vk: &VerifierKey, commitments: Vec<&'a LabeledCommitment<Commitment>>, query_set: &BTreeSet<(String, (String, Fr))>, values: &BTreeMap<(String, Fr), Fr>, proof: &Vec<kzg10::Proof>, sponge: &mut Sponge, rng: &mut Rng) -> (res: Result<bool, Error>)
     requires
         sonic_table_sorted(vk), rng.present@,
     ensures
-        res is Ok ==> sbatch_post(vk, commitments@, query_set@, values@, proof@, old(sponge).st@, old(rng).id@, old(rng).pos@, res, final(sponge).st@),   // name=sonic_pc.batch_check.one_randomised_equation_over_per_point_accumulations props=C05,C10,C11
+        res is Ok ==> sbatch_post(vk, commitments@, query_set@, values@, proof@, old(sponge).st@, old(rng).id@, old(rng).pos@, res, final(sponge).st@),   // name=sonic_pc.batch_check.one_randomised_equation_over_per_point_accumulations props=C05,C10,C11,C17
 //@body
 //@rw 1 /(?s)let commitments: BTreeMap<_, _> = (commitments\.into_iter\(\)\.map\(.*?\))\.collect\(\);/ => let cv__: Vec<(&String, &LabeledCommitment<Comm>)> = \1.collect();
         let commitments: BTreeMap<&String, &LabeledCommitment<Comm>> = btree_from_pairs(cv__);
